@@ -3,22 +3,22 @@
 import json
 import subprocess
 
-SIM = "SIM: deterministic cluster simulation (real Core + MILP scheduler + HQ State/EventStreamer/journal process + real WorkerState), harness-owned schedule"
+SIM = "SIM: bounded exhaustive enumeration of 16 small scenarios (systematic phase) followed by random search; deterministic cluster simulation (real Core + MILP scheduler + HQ State/EventStreamer/journal process + real WorkerState), harness-owned schedule"
 
 CHECKS = {
     # id: (engine, category, technique, text, note, design_ref)
     "C04": ("ALLOC", "exploration", "stateful property-based testing of the real ResourceAllocator against a harness-side ledger (reference model)",
             "Random descriptors (range/list/uneven groups/sum with fractional size, couplings) and random try_allocate/release sequences; after every operation a ledger of live allocations is compared index by index with the allocator's pools and its concise summary: exclusivity (<=100% per index, sum <= size), exact amounts, one fractional index and it is last, indices/groups belong to the descriptor, conservation after release, `all` of everything granted after the final release.",
-            "the task environment variables (HQ_RESOURCE_VALUES_*) are checked in the SIM engine, not here; requests respect CLI rules", "5/C04"),
+            "1 of 11 cases is a SIM history on real workers (live allocations against the same ledger, HQ_RESOURCE_VALUES_* / HQ_CPUS against the held indices, conservation of every pool of every live worker after every step); requests respect CLI rules; an allocator call that does not come back within 10 s is abandoned and reported as inconclusive unless a violation is found next to it", "5/C04"),
     "C15": ("SCHED", "exploration", "property-based testing of single scheduling rounds with a validity predicate over (dispatched, remaining)",
-            "Random small clusters (idle or partly busy) and ready queues; one round of the real MILP scheduler through the server API; for every pair (dispatched lower-priority task, remaining higher-priority ready task) the statement's predicate is evaluated literally, including the exception clause. Instances with one worker and at most two request classes must be clean; the counter-example families announced by the property text (>=3 classes, >=2 workers) are known findings with their own signatures; inversions within one request class always count as violations.",
+            "Random small clusters (idle or partly busy) and ready queues; one round of the real MILP scheduler through the server API; for every pair (dispatched lower-priority task, remaining higher-priority ready task) the statement's predicate is evaluated literally, including the exception clause. A literal inversion is matched by a known finding only if it stays within the limits the MILP encoding itself states for the pair (per worker capable of the blocker: #lower class <= cut + gap, sum over workers without a gap <= cut; recomputed by the harness independently of batches.rs / gap.rs); an inversion beyond those limits or within one request class is a violation.",
             "only rounds whose solve completed optimally are judged; 'too busy' of the exception clause is interpreted against free resources before the round minus dispatches of at least the waiting task's priority", "5/C15"),
     "C17": ("AUTOALLOC", "exploration", "stateful property-based testing of the real autoalloc state machine against a fake batch system with reference models of the limits and the back-off contract",
             "Generated histories of demand, ticks, status reports, worker connects/losses, pause/resume/remove and clock advances through the real handle_message/perform_submits/do_periodic_update; invariants after every step (backlog, max worker count, workers per allocation, nothing for paused queues, nothing without fitting demand, back-off delays per the documented RateLimiter contract as a set of possible states, pause after the configured failures) and a must-submit check after resume in a clear-cut state.",
             "fake QueueHandler at the trait boundary; event loop replaced by explicit tick/update actions; mocked monotonic clock", "5/C17"),
     "C18": ("AUTOALLOC", "exploration", "stateful property-based testing with a reference model of the allocation life-cycle",
             "Same engine as C17 with a life-cycle model per allocation: forward-only state sequence, exactly-once announcements, exact connected-worker set while running, normal finish exactly when the number of distinct lost workers reaches the target, unknown allocations change nothing, queue removal cancels each active allocation once and forgets everything.",
-            "allocations that saw a loss while queued or a status error are excluded from the life-cycle comparison (statement silent / error streak thresholds not modelled)", "5/C18"),
+            "allocations that saw a loss while queued or a status error are excluded from the comparison with the life-cycle model (statement silent / the number of status errors after which an allocation is given up is not fixed by the statement); monotonicity and exactly-once announcements are still checked for them, and status-error streaks of 11-26 updates are generated", "5/C18"),
     "C19": ("STREAM", "exploration", "round-trip property-based testing: real stream writers -> files (interleaved, several writers, torn) -> real OutputLog reader",
             "Several real StreamerRef writers write generated chunk sequences of several tasks and instances into one directory, interleaved by a generated schedule; crashed writers lose their tail (file cut at a generated offset); cat (both channels), export and summary of the real reader are compared with what the last execution of every task that ended on a live writer wrote.",
             "pipes of real child processes are replaced by send_data calls with the chunking of resend_stdio", "5/C19"),
@@ -49,15 +49,15 @@ CHECKS = {
     "C08": ("SIM", "exploration", "stateful property-based testing, invariants around every cancel",
             "Cancels at every point relative to in-flight messages; checks on events, launcher (stop signal on delivery, no start after the worker processed the cancel, backlog included), scheduler snapshot (no dangling reference, exact reservations) and idempotence.",
             "as C01", "5/C08"),
-    "C09": ("SIM", "exploration", "stateful property-based testing / fuzzing of message schedules with catch_unwind + panic hook as oracle",
-            "Uniformly weighted chaos profile over all actions; any panic in repository code (also inside spawned worker futures) is a violation. Thorough tier adds a libFuzzer campaign over the same interpreter.",
+    "C09": ("SIM", "exploration", "bounded exhaustive enumeration of small scenarios + stateful property-based testing / fuzzing of message schedules, with catch_unwind + panic hook as oracle",
+            "Bounded exhaustive enumeration of 16 small scenarios (all interleavings of deliveries, scheduler rounds, task ends and a bounded number of losses / cancels / failures up to a depth bound, visited-state pruning) followed by a uniformly weighted chaos profile over all actions including every client request type; any panic in repository code (also inside spawned worker futures) is a violation.",
             "correctly behaving workers only; harness panics are reported as inconclusive", "5/C09"),
     "C10": ("RESTORE", "fault_enumeration", "crash-point enumeration over generated journals (stateful property-based testing produces the journals) with an independent reference fold as oracle",
             "Journals are produced by SIM histories through the real journal process; every record boundary (and 8 interior offsets) is a crash point; the real restore runs on every prefix and is compared with a reference fold of the recorded events: startup succeeds, jobs/open flag/task sets/outcomes/counters, pending tasks exactly once with remaining dependencies, exact truncation of a torn tail, re-opened journal well formed; one restored server per case is continued to completion (every unfinished task runs exactly once).",
             "crash = loss of a suffix of the file; interior cuts after the header", "5/C10"),
     "C11": ("RESTORE", "fault_enumeration", "crash-point enumeration over generated (also pruned) journals, comparison of issued ids with every id the prefix mentions",
             "For every cut of every generated journal the first job id, worker id and queue id that the restored server would issue and the server uid are compared with all ids mentioned anywhere in the prefix (jobs, workers in connect/loss/start records, queues).",
-            "queue ids: the counter handed to the autoalloc service is compared", "5/C11"),
+            "queue ids: the counter handed over by the restore is compared, and the restored queues are re-added to a real autoalloc state through the production AddQueue path before a new queue is created; second-generation restarts (restore, continue with random actions, restore again) cover repeated restarts", "5/C11"),
     "C12": ("RESTORE", "fault_enumeration", "metamorphic testing: Restore(pruned journal + suffix) vs Restore(unpruned journal + suffix) at every record boundary of the suffix",
             "Histories with prune requests at random moments (live sets computed by the real handler, pruning done by the real journal process); a shadow unpruned journal is written from the same event stream; both are restored at every record boundary after the last prune and compared (jobs, outcomes, pending tasks with dependencies, next instance ids, crash counts, queues); the pruned file is re-read, appended to and pruned again.",
             "id counters are not compared here (C11 does that)", "5/C12"),
